@@ -58,6 +58,8 @@ pub struct Mon {
     pub hits: u64,
     prev: Option<CacheSnap<u64>>,
     evicted_once: HashSet<u64>,
+    /// index -> conflict hashes used with it (two different ones = an index collision, finding D9)
+    conf_seen: HashMap<u64, HashSet<u64>>,
     in_tick: bool,
     tick_time: u64,
 }
@@ -78,7 +80,7 @@ impl Mon {
             cb_count: HashMap::new(), overwritten: HashSet::new(), before_clear: HashSet::new(), cleared_ok: HashMap::new(), clear_epoch: 0, start_epoch: HashMap::new(), clear_on_closed: HashSet::new(), at_clear_call: HashMap::new(), started_after_close: HashSet::new(),
             cur_op: HashMap::new(), sent_by: HashMap::new(), after_wait: Vec::new(), lookups_since_clear: 0, ring_carry: 0, drops_since_clear: 0,
             any_error: false, closed_ok: false, clear_returned_clean: false, straddled: false, inserted_after_clear: false, hits: 0,
-            prev: None, evicted_once: HashSet::new(), in_tick: false, tick_time: 0,
+            prev: None, evicted_once: HashSet::new(), conf_seen: HashMap::new(), in_tick: false, tick_time: 0,
         }
     }
 
@@ -107,6 +109,12 @@ impl Mon {
             self.started_after_close.insert(a);
         } else {
             self.started_after_close.remove(&a);
+        }
+        match op {
+            Op::Insert { idx, conf, .. } | Op::Get { idx, conf } | Op::GetMutWrite { idx, conf, .. } | Op::GetTtl { idx, conf } | Op::Remove { idx, conf } => {
+                self.conf_seen.entry(*idx).or_default().insert(*conf);
+            }
+            _ => {}
         }
         match op {
             Op::Insert { idx, conf, val, cost, .. } => {
@@ -392,11 +400,13 @@ impl Mon {
             self.hit("C01", format!("charged total {} differs from the sum of charges {}", s.policy.used, sum));
         }
         // C06: resident entries and charges agree
-        if !self.any_error && !self.flags.collisions {
+        if !self.any_error {
             let a: Vec<u64> = s.store.iter().map(|e| e.index).collect();
             let b: Vec<u64> = s.policy.key_costs.iter().map(|(k, _)| *k).collect();
             if a != b {
-                self.hit("C06", format!("at quiescence resident keys {:?} differ from charged keys {:?}", a, b));
+                let diff: Vec<u64> = a.iter().filter(|k| !b.contains(k)).chain(b.iter().filter(|k| !a.contains(k))).copied().collect();
+                let all_collide = diff.iter().all(|k| self.conf_seen.get(k).map_or(0, |c| c.len()) >= 2);
+                self.hit("C06", format!("at quiescence resident keys {:?} differ from charged keys {:?}{}", a, b, if all_collide { " class=index-collision" } else { "" }));
             }
         }
         // C16: the charge of every resident entry follows the formula of the value that is resident
@@ -421,13 +431,14 @@ impl Mon {
             }
         }
         // C08: every accepted value is in exactly one place
-        if !self.flags.collisions {
+        {
             let resident: HashSet<u64> = s.store.iter().map(|e| e.value).collect();
             let acc: Vec<u64> = self.accepted.iter().copied().collect();
             for v in acc {
                 let places = resident.contains(&v) as u32 + self.cb_count.get(&v).map_or(0, |l| l.len() as u32) + self.overwritten.contains(&v) as u32;
                 if places == 0 && !self.before_clear.contains(&v) {
-                    self.hit("C08", format!("accepted value {} is neither resident nor handed to a callback", v));
+                    let collide = self.val_key.get(&v).map_or(false, |(i, _)| self.conf_seen.get(i).map_or(0, |c| c.len()) >= 2);
+                    self.hit("C08", format!("accepted value {} is neither resident nor handed to a callback{}", v, if collide { " class=index-collision" } else { "" }));
                     self.accepted.remove(&v);
                 }
                 if places > 1 {
